@@ -9,6 +9,7 @@
 
 mod c05;
 mod c09;
+mod c20;
 mod common;
 
 use common::*;
@@ -23,6 +24,10 @@ macro_rules! with_scenario {
             }
             "C09" => {
                 type $S = c09::C09;
+                $body
+            }
+            "C20" => {
+                type $S = c20::C20;
                 $body
             }
             _ => $otherwise,
@@ -84,6 +89,7 @@ fn main() {
             match prop {
                 "C05" => c05::check(tier),
                 "C09" => c09::check(tier),
+                "C20" => c20::check(tier),
                 _ => usage(),
             }
         }
@@ -133,7 +139,7 @@ fn selftest_determinism(runs: u64) -> i32 {
     let seed = base_seed();
     let mut lines = vec![];
     let only = std::env::var("VERIF_ONLY").ok();
-    for prop in ["C05", "C09"] {
+    for prop in ["C05", "C09", "C20"] {
         if only.as_deref().map(|o| o != prop).unwrap_or(false) {
             continue;
         }
